@@ -20,7 +20,7 @@
 (* generate_tiles, toast_tile_for_point) and toasty/_libtoasty.pyx            *)
 (* (_subsample).                                                              *)
 EXTENDS Naturals, Sequences, FiniteSets, TLC
-CONSTANTS R, MaxDepth, K        \* lattice refinement; tiles to MaxDepth; sub-sampling exponent (MaxDepth + K + 1 <= R)
+CONSTANTS R, MaxDepth, K        \* lattice refinement; tiles to MaxDepth (<= R); sub-sampling exponent
 
 S == 2^R
 H == 2^(R - 1)
@@ -132,7 +132,10 @@ Eqv(p) == IF IsCorner(p) THEN {<<0, 0>>, <<S, 0>>, <<0, S>>, <<S, S>>} ELSE {p, 
 InClosed(p, t) == /\ t.c[1].pt[1] <= p[1] /\ p[1] <= t.c[3].pt[1]
                   /\ t.c[1].pt[2] <= p[2] /\ p[2] <= t.c[3].pt[2]
 Holds(p, t) == \E q \in Eqv(p) : InClosed(q, t)
-Admissible(p, d) == {pos \in Positions(d) : Holds(p, TileAt(pos))}
+\* the same for a canonical tile, by arithmetic on its position
+InClosedPos(p, pos) == LET s == Step(pos[1]) IN /\ pos[2] * s <= p[1] /\ p[1] <= (pos[2] + 1) * s
+                                                /\ pos[3] * s <= p[2] /\ p[2] <= (pos[3] + 1) * s
+Admissible(p, d) == {pos \in Positions(d) : \E q \in Eqv(p) : InClosedPos(q, pos)}
 
 \* ---------------------------------------------------------------- theorems (constant level)
 T_Level1 == \A planetary \in BOOLEAN : \A i \in 1..4 : \A k \in 1..4 :
@@ -149,7 +152,7 @@ T_Gen == LET g == Gen(MaxDepth) IN
          /\ Len(g) = Cardinality(AllPos)
          /\ \A i \in DOMAIN g : g[i] = TileAt(g[i].pos)
          /\ {g[i].pos : i \in DOMAIN g} = AllPos
-T_Sub == \A p \in AllPos : LET t == TileAt(p)
+T_Sub == \A p \in AllPos : p[1] + K + 1 <= R => LET t == TileAt(p)
                                g == Sub(t.c[1], t.c[2], t.c[3], t.c[4], t.inc, K) IN
             \A r \in 0..(2^K - 1), c \in 0..(2^K - 1) : g[<<r, c>>] = Centre(p[1] + K, (2^K) * p[2] + c, (2^K) * p[3] + r)
 \* the tiles of one level partition the square (unit lattice squares <<i, j>>); four children tile their parent
@@ -171,13 +174,14 @@ T_Fold == \A p \in Lattice : OnBoundary(p) =>
             /\ \A q \in Def(p) : OnBoundary(q)
 \* every tile contains the centre it is looked up by; closed cells of children cover the parent's closed cell
 T_LookupCentre == \A p \in AllPos : p[1] + 1 <= R => Admissible(Centre(p[1], p[2], p[3]).pt, p[1]) = {p}
+T_AdmIsHolds == \A p \in AllPos : \A q \in {<<0, 0>>, <<H, H>>, <<S, H>>, <<1, 0>>, <<H + 1, H>>, <<3, S>>} : Holds(q, TileAt(p)) <=> p \in Admissible(q, p[1])
 
 \* ---------------------------------------------------------------- point lookup as a state machine (toast_tile_for_point)
 \* state: the query point and the tile reached so far; Descend moves to a child whose closed cell holds the point
 \* (the code scores the four children by half-space tests and takes one with score 0: any child holding the point)
 VARIABLES qp, cur
 lvars == <<qp, cur>>
-LInit == qp \in Lattice /\ cur \in {pos \in Positions(1) : Holds(qp, TileAt(pos))}
+LInit == qp \in Lattice /\ cur \in Admissible(qp, 1)
 Descend == /\ cur[1] < MaxDepth
            /\ \E i \in 1..4 : LET ch == Div4(TileAt(cur))[i] IN Holds(qp, ch) /\ cur' = ch.pos
            /\ UNCHANGED qp
